@@ -422,6 +422,19 @@ def run(ctx, rep):
                 if k <= 31 and any(x in ov or (rn.reachable(x) & ov and not rn.in_loop(x)) for x in rn.succ_map()[b]):
                     okk = True
                     rep.ok("C02.bound", "read_natural: length guard", "len > %d → Err(Overflow) (accumulator is u32)" % k)
+                    # ... and it guards *every* level: from the conversion that produces a level's length no accumulation step
+                    # (n = 2n + bit) is reachable on a path that avoids the comparison
+                    conv = [cs.bb for cs in rn.calls() if cs.name in ("try_into", "try_from") and rn.dominates(cs.bb, b) and cs.bb != b]
+                    muls = {bb for bb in rn.rpo() for st in rn.blocks[bb]["s"] if st[0] == "=" and st[2].get("k") == "bin"
+                            and st[2].get("op") in ("Mul", "MulWithOverflow", "Shl") and rn.in_loop(bb)}
+                    if conv and muls:
+                        src = max(conv, key=lambda x: len(rn.dominated_by(x)) * -1)
+                        if muls & rn.reachable(src, avoid=(b,)):
+                            rep.violation("C02.bound", "read_natural:len-guard:bypass", "the length guard can be bypassed: from the conversion of a level's length "
+                                          "an accumulation step is reachable without the comparison (a length above 31 at an inner level overflows the "
+                                          "32-bit accumulator)", rn.where())
+                        else:
+                            rep.ok("C02.bound", "read_natural: length guard on every level", None)
                 else:
                     rep.violation("C02.bound", "read_natural:len-guard", "the length guard allows %d bits in a 32-bit accumulator" % (k + 1), rn.where())
                     okk = True
